@@ -19,4 +19,44 @@ pub mod c19_std {
     // types whose clone is a copy (`cloned(a, b) ==> a == b`, true of u8).
     pub assume_specification<T: Clone> [ <[T]>::to_vec ] (s: &[T]) -> (r: Vec<T>)
         ensures (forall|a: T, b: T| #[trigger] cloned(a, b) ==> a == b) ==> r@ == s@;
+
+    // `map.entry(k).or_insert_with(f)` on a BTreeMap.  std: "Ensures a value is in the entry by inserting the
+    // result of the default function if empty, and returns a mutable reference to the value in the entry."
+    // Contract: a present key keeps its value and `f` is not called; an absent key gets `f()`; the map
+    // afterwards is the old map with `k` bound to whatever the returned reference holds when the borrow ends;
+    // no other key changes.  Used through ONE logged rewrite `MAP.entry(K).or_insert_with(` =>
+    // `btree_entry_or_insert_with(&mut MAP, K, ` (the body calls the real `entry` / `or_insert_with`).
+    #[verifier::external_body]
+    pub fn btree_entry_or_insert_with<'a, K: Ord, V, F: FnOnce() -> V>(m: &'a mut BTreeMap<K, V>, k: K, f: F) -> (r: &'a mut V)
+        requires
+            !old(m)@.contains_key(k) ==> f.requires(()),
+        ensures
+            vstd::std_specs::btree::key_obeys_cmp_spec::<K>() ==> {
+                &&& old(m)@.contains_key(k) ==> *r == old(m)@[k]
+                &&& !old(m)@.contains_key(k) ==> f.ensures((), *r)
+                &&& final(m)@ == old(m)@.insert(k, *final(r))
+            },
+    {
+        m.entry(k).or_insert_with(f)
+    }
+
+    /// `ks` lists the keys of `m` in strictly ascending order and `v` the corresponding values
+    pub open spec fn u64_key_order_listing<V>(m: Map<u64, V>, ks: Seq<u64>, v: Seq<V>) -> bool {
+        &&& forall|i: int, j: int| 0 <= i < j < ks.len() ==> #[trigger] ks[i] < #[trigger] ks[j]
+        &&& forall|k: u64| #[trigger] ks.contains(k) <==> m.contains_key(k)
+        &&& v.len() == ks.len()
+        &&& forall|i: int| 0 <= i < ks.len() ==> #[trigger] v[i] == m[ks[i]]
+    }
+
+    // `map.into_values().collect::<Vec<V>>()` on a BTreeMap<u64, V>.  std (BTreeMap::into_values): "Creates a
+    // consuming iterator visiting all the values, in order by key"; collect() pushes them in iteration
+    // order.  Contract: the result lists the values of the map in strictly ascending key order (u64's `Ord`
+    // is `<` on the numbers).  Used through ONE logged rewrite `MAP.into_values().collect()` =>
+    // `btree_u64_into_values(MAP)` (the body calls the real functions).
+    #[verifier::external_body]
+    pub fn btree_u64_into_values<V>(m: BTreeMap<u64, V>) -> (r: Vec<V>)
+        ensures exists|ks: Seq<u64>| u64_key_order_listing(m@, ks, r@),
+    {
+        m.into_values().collect()
+    }
 }
